@@ -1,0 +1,9 @@
+//go:build !verif
+
+package pebbledb
+
+import "github.com/cockroachdb/pebble"
+
+func verifPebbleOptions(*pebble.Options) {}
+
+func verifYield(string) {}
